@@ -211,9 +211,10 @@ def r_balance(P, chk, units=None):
                 if o == c:
                     chk.obligation(rid, "%s [%s]: <%s> balanced (%d)" % (fn, labels[0], nm, len(o)), True, sample=False, nontrivial=bool(o and o[0]))
                     continue
-                if (fn, labels[0], nm) in REVIEWED:
-                    chk.obligation(rid, "%s [%s]: <%s> reviewed - %s" % (fn, labels[0], nm, REVIEWED[(fn, labels[0], nm)]), True)
-                    note = "R-BALANCE reviewed %s [%s] <%s>: %s" % (fn, labels[0], nm, REVIEWED[(fn, labels[0], nm)])
+                rv = [(l, REVIEWED[(fn, l, nm)]) for l in labels if (fn, l, nm) in REVIEWED]      # any label of the section
+                if rv:
+                    chk.obligation(rid, "%s [%s]: <%s> reviewed - %s" % (fn, rv[0][0], nm, rv[0][1]), True)
+                    note = "R-BALANCE reviewed %s [%s] <%s>: %s" % (fn, rv[0][0], nm, rv[0][1])
                     if note not in chk.notes:
                         chk.notes.append(note)
                     continue
